@@ -18,4 +18,5 @@ var Registry = map[string]func() *vlib.Plan{
 	"C12": C12Plan,
 	"C14": C14Plan,
 	"C15": C15Plan,
+	"C16": C16Plan,
 }
